@@ -80,6 +80,16 @@ def gen_case(rng, tier, i):
         case["suffix"] = rng.choice([None, "_on_theta", ""])
         case["chunk"] = rng.random() < 0.35
         case["da_name"] = rng.choice(["phi", "salt"])
+        case["lev_shift"] = 0.25
+        if exact and not log and rng.random() < 0.2:
+            # single-precision data against double-precision target_data that single precision cannot hold
+            # (density-like values: 1024 + x / 2**16): nothing may be rounded to the precision of the data
+            case["f32"] = True
+            f = lambda x: 1024.0 + x / 65536.0  # noqa: E731  (exact in float64, monotone)
+            for c in cols:
+                c["theta"] = [f(t) for t in c["theta"]]
+            case["levels"] = [f(l) for l in case["levels"]]
+            case["lev_shift"] = 0.25 / 65536.0
     return case
 
 
@@ -146,7 +156,7 @@ def eval_transform(case, drv):
                                    else np.arange(n) + 0.5),
                             "e": ("e", np.arange(E) * 1.0)})
     grid = xgcm.Grid(ds, coords={"Z": {"center": "zc"}}, boundary="fill", autoparse_metadata=False)
-    phi = xr.DataArray(np.array([c["phi"] for c in cols], dtype=float), dims=["e", "zc"],
+    phi = xr.DataArray(np.array([c["phi"] for c in cols], dtype=np.float32 if case.get("f32") else float), dims=["e", "zc"],
                        coords={"zc": ds.zc, "e": ds.e}, name=case["da_name"])
     if case["use_coord"]:
         thetas = [cols[0]["theta"]] * E
@@ -165,7 +175,7 @@ def eval_transform(case, drv):
         target = xr.DataArray(np.array(levels, dtype=float), dims=[tdn])
         expect_dim = tdn
     else:
-        per_col_levels = [[l + 0.25 * k for l in levels] for k in range(E)]
+        per_col_levels = [[l + case.get("lev_shift", 0.25) * k for l in levels] for k in range(E)]
         target = xr.DataArray(np.array(per_col_levels, dtype=float), dims=["e", tdn])
         kw["target_dim"] = tdn
         expect_dim = tdn
@@ -206,7 +216,8 @@ def eval_transform(case, drv):
             detail["values"] = {"col": k, "impl": vals[k].tolist(), "model": [None if m is None else str(m) for m in mo]}
             break
     return {"corr_ok": corr_ok, "prop_ok": prop_ok and corr_ok,
-            "branch": f"transform:{case['target_kind']}:{'log' if case['log'] else 'linear'}" + (":dask" if case["chunk"] else ""),
+            "branch": f"transform:{case['target_kind']}:{'log' if case['log'] else 'linear'}" + (":dask" if case["chunk"] else "")
+            + (":f32" if case.get("f32") else ""),
             "detail": detail or None}
 
 
